@@ -156,6 +156,9 @@ type c08Universe struct {
 	portIDs []string
 	ref     refpol.MapSets
 	sim     map[string]*nfsim.Set // keyed by dataplane name
+	// unload: Felix's names of the same set IDs for the OTHER IP version; a table of this IP
+	// version cannot reference them (wrong family / not present in the ip/ip6 nft table).
+	unload map[string]string
 }
 
 var (
@@ -164,7 +167,18 @@ var (
 )
 
 func c08GenUniverse(t *rapid.T, ipv int, cfg rules.Config, nft bool) *c08Universe {
-	u := &c08Universe{ipv: ipv, netIDs: c08NetSetIDs, portIDs: c08PortSetIDs, sim: map[string]*nfsim.Set{}}
+	u := &c08Universe{ipv: ipv, netIDs: c08NetSetIDs, portIDs: c08PortSetIDs, sim: map[string]*nfsim.Set{}, unload: map[string]string{}}
+	for _, id := range append(append([]string{}, c08NetSetIDs...), c08PortSetIDs...) {
+		oc := cfg.IPSetConfigV6
+		if ipv == 6 {
+			oc = cfg.IPSetConfigV4
+		}
+		n := oc.NameForMainIPSet(id)
+		if nft {
+			n = nftables.LegalizeSetName(n)
+		}
+		u.unload[n] = fmt.Sprintf("it is the IPv%d set of IP set ID %q", 10-ipv, id)
+	}
 	m := map[string]*refpol.IPSet{}
 	name := func(id string) string {
 		c := cfg.IPSetConfigV4
@@ -214,6 +228,7 @@ func c08GenUniverse(t *rapid.T, ipv int, cfg rules.Config, nft bool) *c08Univers
 
 type c08RuleInfo struct {
 	Blocks, Split, Straddle, NamedPort, IPSet, ICMP, MixedVer, NegCIDRBlock, NegPorts, NotApplicable bool
+	NamedInBlock, Service, AnyVersion                                                                bool
 	PosBlocks                                                                                        int
 	Action                                                                                           string
 }
@@ -379,11 +394,11 @@ func c08GenRule(t *rapid.T, o c08GenOpts, u *c08Universe, rec *ev.Recorder) *pro
 		r.NotDstPorts = c08GenPorts(t, "notdstports", 40, d)
 	}
 	if ports || r.Protocol == nil {
-		r.SrcNamedPortIpSetIds = c08GenIDs(t, "srcnamed", u.portIDs, 2, d/2)
-		r.DstNamedPortIpSetIds = c08GenIDs(t, "dstnamed", u.portIDs, 3, d)
+		r.SrcNamedPortIpSetIds = c08GenIDs(t, "srcnamed", u.portIDs, 2, d/2+6)
+		r.DstNamedPortIpSetIds = c08GenIDs(t, "dstnamed", u.portIDs, 3, d+12)
 		r.NotSrcNamedPortIpSetIds = c08GenIDs(t, "notsrcnamed", u.portIDs, 2, d/3)
 		r.NotDstNamedPortIpSetIds = c08GenIDs(t, "notdstnamed", u.portIDs, 2, d/2)
-		r.DstIpPortSetIds = c08GenIDs(t, "dstipport", u.portIDs, 1, d/3)
+		r.DstIpPortSetIds = c08GenIDs(t, "dstipport", u.portIDs, 1, d/3+14)
 	}
 
 	// IP sets.
@@ -518,6 +533,10 @@ func c08Classify(r *proto.Rule, ipv int) c08RuleInfo {
 			in.PosBlocks++
 		}
 	}
+	in.NamedInBlock = !notApplicable && ((len(r.SrcNamedPortIpSetIds) > 0 && ss+len(r.SrcNamedPortIpSetIds) > 1) ||
+		(len(r.DstNamedPortIpSetIds) > 0 && ds+len(r.DstNamedPortIpSetIds) > 1))
+	in.Service = len(r.DstIpPortSetIds) > 0
+	in.AnyVersion = r.IpVersion == proto.IPVersion_ANY
 	in.Blocks = !notApplicable && (in.PosBlocks > 0 || in.NegCIDRBlock)
 	return in
 }
@@ -896,6 +915,9 @@ func c08Render(cfg rules.Config, nft bool, ipv int, inbound bool, prules []*prot
 		out.rs, out.entry = rs, name
 	}
 	out.rs.Sets = u.sim
+	if u.unload != nil {
+		out.rs.Unloadable = u.unload
+	}
 	c08Dump(nft, ipv, out.rs)
 	if !out.rs.HasChain(out.entry) {
 		return nil, fmt.Errorf("policy chain %q was not rendered; got %v", out.entry, out.rs.ChainNames())
@@ -1039,7 +1061,10 @@ func TestVerifC08Rules(t *testing.T) {
 			act, _, bad := c08CheckPacket(rd, prules, u, marks, denyAction, p, mark0)
 			if bad != "" {
 				if strings.HasPrefix(bad, "ERR:") {
-					t.Fatalf("%s\nrules: %v\nrendered:\n%s", bad[4:], prules, rd.rs.Dump())
+					if strings.Contains(bad, "HARNESS-GAP:") {
+						t.Fatalf("%s\nrules: %v\nrendered:\n%s", bad[4:], prules, rd.rs.Dump())
+					}
+					t.Fatalf("C08 violated: the rendered rules cannot be programmed/executed, so no rule takes its action: %s\nrules: %v\nrendered:\n%s", bad[4:], prules, rd.rs.Dump())
 				}
 				t.Fatalf("C08 violated (%s, IPv%d): %s\nrules: %v\nrendered:\n%s", map[bool]string{false: "iptables", true: "nftables"}[nft], ipv, bad, prules, rd.rs.Dump())
 			}
@@ -1054,11 +1079,13 @@ func TestVerifC08Rules(t *testing.T) {
 		var keyParts []string
 		classes = append(classes, c08Bool(satisfiable == 0, "no-rule-satisfiable"))
 		for _, in := range infos {
-			classes = append(classes, c08Bool(in.PosBlocks >= 3, "positive-blocks-3+"), c08Bool(in.PosBlocks == 2, "positive-blocks-2"))
+			classes = append(classes, c08Bool(in.PosBlocks >= 3, "positive-blocks-3+"), c08Bool(in.PosBlocks == 2, "positive-blocks-2"),
+				c08Bool(in.NamedInBlock, "named-port-in-port-block"), c08Bool(in.NamedInBlock && in.AnyVersion && ipv == 6, "v6-anyversion-named-port-block"),
+				c08Bool(in.Service && !in.NotApplicable, fmt.Sprintf("service-ipport-set-%s", map[bool]string{false: "iptables", true: "nft"}[nft])))
 			if in.Blocks || (in.Split && !in.NotApplicable) {
 				anyBlocks = true
 			}
-			flags := fmt.Sprint(in.PosBlocks) + c08Bool(in.Blocks, "B") + c08Bool(in.Split, "S") + c08Bool(in.Straddle, "X") + c08Bool(in.NamedPort, "N") +
+			flags := fmt.Sprint(in.PosBlocks) + c08Bool(in.NamedInBlock, "n") + c08Bool(in.Service, "v") + c08Bool(in.Blocks, "B") + c08Bool(in.Split, "S") + c08Bool(in.Straddle, "X") + c08Bool(in.NamedPort, "N") +
 				c08Bool(in.IPSet, "I") + c08Bool(in.ICMP, "C") + c08Bool(in.MixedVer, "M") + c08Bool(in.NegCIDRBlock, "G") +
 				c08Bool(in.NegPorts, "P") + c08Bool(in.NotApplicable, "0")
 			keyParts = append(keyParts, in.Action+":"+flags)
@@ -1142,10 +1169,24 @@ func TestVerifC08ConfirmNftICMPCode(t *testing.T) {
 	c08ConfirmRun(t, true, 4, r, []refpol.Packet{{IPVersion: 4, Proto: 1, Src: a("10.0.0.1"), Dst: a("10.0.0.2"), ICMPType: 8}})
 }
 
+// TestVerifC08ConfirmIptTwoProtos: former confirmation test of the (now fixed) finding
+// c08-ipt-protocol-and-notprotocol, kept as a regression test: a rule with both protocol and
+// notProtocol must load and match iff proto==protocol && proto!=notProtocol, both renderers.
 func TestVerifC08ConfirmIptTwoProtos(t *testing.T) {
-	r := &proto.Rule{Action: "allow", Protocol: c08ProtoName("tcp"), NotProtocol: c08ProtoName("udp")}
 	a := netip.MustParseAddr
-	c08ConfirmRun(t, false, 4, r, []refpol.Packet{{IPVersion: 4, Proto: 6, Src: a("10.0.0.1"), Dst: a("10.0.0.2"), SrcPort: 1, DstPort: 2}})
+	pk := func(proto uint8) refpol.Packet {
+		return refpol.Packet{IPVersion: 4, Proto: proto, Src: a("10.0.0.1"), Dst: a("10.0.0.2"), SrcPort: 1, DstPort: 2}
+	}
+	for _, nft := range []bool{false, true} {
+		for _, r := range []*proto.Rule{
+			{Action: "allow", Protocol: c08ProtoName("tcp"), NotProtocol: c08ProtoName("udp")},
+			{Action: "allow", Protocol: c08ProtoName("tcp"), NotProtocol: c08ProtoNum(6)},
+			{Action: "deny", Protocol: c08ProtoNum(17), NotProtocol: c08ProtoName("udp")},
+			{Action: "allow", Protocol: c08ProtoNum(132), NotProtocol: c08ProtoNum(47), DstPorts: []*proto.PortRange{{First: 2, Last: 2}}},
+		} {
+			c08ConfirmRun(t, nft, 4, r, []refpol.Packet{pk(6), pk(17), pk(132), pk(47)})
+		}
+	}
 }
 
 // TestVerifC08NfsimSelfTest runs the interpreter's own self-tests (hand-written rule text with
@@ -1153,5 +1194,64 @@ func TestVerifC08ConfirmIptTwoProtos(t *testing.T) {
 func TestVerifC08NfsimSelfTest(t *testing.T) {
 	for _, f := range nfsim.SelfTest() {
 		t.Errorf("nfsim self-test: %s", f)
+	}
+}
+
+// TestVerifC08RegressSetFamilyAndDims: fixed inputs for two shapes the generator also draws —
+// (a) a rule without explicit ip_version whose named ports need a port match block, rendered for
+// IPv6; (b) a rule with a service (ip,port) destination set — for both renderers.
+func TestVerifC08RegressSetFamilyAndDims(t *testing.T) {
+	ev.Quiet()
+	marks := c08MarkLayouts[0]
+	cfg := c08Config(marks, false, "DROP")
+	a := netip.MustParseAddr
+	for _, nft := range []bool{false, true} {
+		for _, ipv := range []int{4, 6} {
+			pool := c08PoolFor(ipv)
+			member := refpol.IPPort{Addr: pool[2], Proto: 6, Port: 8080}
+			u := &c08Universe{ipv: ipv, sim: map[string]*nfsim.Set{}, unload: map[string]string{}}
+			m := map[string]*refpol.IPSet{}
+			for _, id := range c08PortSetIDs {
+				c, oc := cfg.IPSetConfigV4, cfg.IPSetConfigV6
+				if ipv == 6 {
+					c, oc = oc, c
+				}
+				n, on := c.NameForMainIPSet(id), oc.NameForMainIPSet(id)
+				if nft {
+					n, on = nftables.LegalizeSetName(n), nftables.LegalizeSetName(on)
+				}
+				m[id] = &refpol.IPSet{IPPorts: []refpol.IPPort{member}}
+				u.sim[n] = &nfsim.Set{IPPortType: true, IPPorts: []nfsim.IPPort{{Addr: member.Addr, Proto: 6, Port: 8080}}}
+				u.unload[on] = "set of the other IP version"
+			}
+			if ipv == 4 {
+				u.ref.V4 = m
+			} else {
+				u.ref.V6 = m
+			}
+			_ = a
+			for _, r := range []*proto.Rule{
+				{Action: "allow", Protocol: c08ProtoName("tcp"), DstPorts: []*proto.PortRange{{First: 80, Last: 80}}, DstNamedPortIpSetIds: c08PortSetIDs[:1]},
+				{Action: "allow", Protocol: c08ProtoName("tcp"), SrcNamedPortIpSetIds: c08PortSetIDs[:2]},
+				{Action: "allow", DstIpPortSetIds: c08PortSetIDs[2:]},
+				{Action: "deny", NotDstNet: []string{pool[9].String() + map[int]string{4: "/32", 6: "/128"}[ipv]}, DstIpPortSetIds: c08PortSetIDs[2:]},
+			} {
+				prules := []*proto.Rule{r}
+				rd, err := c08Render(cfg, nft, ipv, false, prules, false, false, u)
+				if err != nil {
+					t.Fatalf("nft=%v IPv%d: rendered policy chain cannot be loaded: %v\nrule: %v", nft, ipv, err, r)
+				}
+				for _, p := range []refpol.Packet{
+					{IPVersion: ipv, Proto: 6, Src: pool[1], Dst: member.Addr, SrcPort: 1000, DstPort: 8080},
+					{IPVersion: ipv, Proto: 6, Src: member.Addr, Dst: pool[1], SrcPort: 8080, DstPort: 80},
+					{IPVersion: ipv, Proto: 6, Src: pool[1], Dst: member.Addr, SrcPort: 1000, DstPort: 8081},
+					{IPVersion: ipv, Proto: 17, Src: pool[1], Dst: member.Addr, SrcPort: 1000, DstPort: 8080},
+				} {
+					if _, _, bad := c08CheckPacket(rd, prules, u, marks, "DROP", p, 0); bad != "" {
+						t.Fatalf("C08 violated (nft=%v IPv%d): %s\nrule: %v\nrendered:\n%s", nft, ipv, bad, r, rd.rs.Dump())
+					}
+				}
+			}
+		}
 	}
 }
